@@ -742,7 +742,7 @@ def m_into(I, st, call):
     r = _int_conv(I, st, call, call.args[0], src, dst)
     if r is not None:
         v, sit, dit = r
-        return [(st, IntV(v.aff, dit, bits=v.bits if v.bits and len(v.bits) == dit[0] else None))]
+        return [(st, IntV(v.aff, dit, bits=_widen_bits(v, sit, dit)))]
     # Vec<u8> from &[u8] / &str / String etc.
     a = call.args[0]
     if dst is not None and dst[0] == "adt" and dst[1] in ("alloc::vec::Vec", "alloc::string::String"):
@@ -765,7 +765,13 @@ def m_num_from(I, st, call):
     if r is None:
         return None
     v, sit, dit = r
-    return [(st, IntV(v.aff, dit))]
+    return [(st, IntV(v.aff, dit, bits=_widen_bits(v, sit, dit)))]
+
+
+def _widen_bits(v, sit, dit):
+    if v.bits is None or sit[1] or dit[1] or dit[0] < sit[0] or len(v.bits) != sit[0]:
+        return None
+    return tuple(v.bits) + (0,) * (dit[0] - sit[0])
 
 
 @prefix_model("core::convert::num::ptr_try_from_impls::<impl core::convert::TryFrom<",
